@@ -224,7 +224,7 @@ func actionCodeReplaceTs(vnode *parser.RootVistor,
 	}
 	strComment = fmt.Sprintf(strComment,
 		fmt.Sprintf("%s -> %s\n %s\n",
-			leftPartString, rightPartString, oneRule.ActionCode))
+			leftPartString, rightPartString, strings.ReplaceAll(oneRule.ActionCode, "*/", "* /")))
 
 	str := oneRule.ActionCode
 	str = strings.ReplaceAll(str, "$$",
